@@ -16,6 +16,10 @@ func init() { Registry["C14"] = c14 }
 
 var c14Seps = []string{"", " ", "\n", "\t ", " ", " ", ";c\n", ";; (x) \"\n"}
 
+// further Unicode spaces, each tried in every gap of every source (alone and
+// together with one other non-default gap)
+var c14Exotic = []string{"\v", "\f", "\r", "\r\n", "\t", "", " ", " ", " ", " ", " ", "　", " \t\n\v\f\r "}
+
 func c14Alphabet() *term.Alphabet {
 	S, SL := term.TS, term.TSL
 	return &term.Alphabet{
@@ -26,7 +30,7 @@ func c14Alphabet() *term.Alphabet {
 		},
 		Ops: []term.OpSig{
 			sig("and", B, B, B), sig("or", B, B, B, B), sig("not", B, B),
-			sig("=", B, S, S), sig("in", B, S, SL),
+			sig("=", B, S, S), sig("in", B, S, SL), sig("eq", B, S, S),
 			{Name: "if", Args: []term.Ty{B, B, B}, Ret: B, If: true},
 		},
 	}
@@ -57,10 +61,23 @@ func layout(toks []string, seps []int) string {
 	var sb strings.Builder
 	for i := 0; i <= len(toks); i++ {
 		sep := c14Seps[seps[i]]
-		if sep == "" && i > 0 && i < len(toks) && !isBoundary(toks[i-1]) && !isBoundary(toks[i]) {
+		if sep == "" && i > 0 && i < len(toks) && !isBoundary(toks[i-1]) && !isBoundary(toks[i]) &&
+			!(strings.HasSuffix(toks[i-1], `"`) && len(toks[i-1]) >= 2 && strings.HasPrefix(toks[i], `"`)) {
+			// (a closing quote ends its token, so a literal may directly follow a literal)
 			sep = " "
 		}
 		sb.WriteString(sep)
+		if i < len(toks) {
+			sb.WriteString(toks[i])
+		}
+	}
+	return sb.String()
+}
+
+func layoutStr(toks []string, seps []string) string {
+	var sb strings.Builder
+	for i := 0; i <= len(toks); i++ {
+		sb.WriteString(seps[i])
 		if i < len(toks) {
 			sb.WriteString(toks[i])
 		}
@@ -107,7 +124,7 @@ func c14(r *rep.Run) {
 		maxNodes, allGaps, devs, fmtLen = 5, 5, 3, 6
 		r.SetBudget(1800e9)
 	}
-	r.Rule = "corpus = every tree up to the node bound over {and or not = in if; variables; string literals containing runs of blanks, parens, semicolon, brackets, comma, line break; list literals}, in prefix and in infix notation. For each source EVERY assignment of a separator from {nothing (only next to a paren/bracket/comma), blank, line break, tab+blank, U+00A0, U+2028, a comment line, a comment line containing parens and a quote} to EVERY gap (incl. leading/trailing) when the source has few gaps, otherwise every assignment with at most `devs` non-default gaps (deviation bound); directive comments before the first token must be honoured, after it ignored (even malformed). Oracle: Dump+DumpTable of the re-laid-out source equal the original's. Formatter: IndentByParentheses applied 1..3 times to every layout sample and to every lexable character string up to the length bound over 17 characters: the independent tokenizer's token+comment sequence is unchanged and Compile gives the same program/error. non-trivial = layouts containing a comment or a non-ASCII space"
+	r.Rule = "corpus = every tree up to the node bound over {and or not = in if; variables; string literals containing runs of blanks, parens, semicolon, brackets, comma, line break; list literals}, in prefix and in infix notation. For each source EVERY assignment of a separator from {nothing (only next to a paren/bracket/comma or between two string literals), blank, line break, tab+blank, U+00A0, U+2028, a comment line, a comment line containing parens and a quote} to EVERY gap (incl. leading/trailing) when the source has few gaps, otherwise every assignment with at most `devs` non-default gaps (deviation bound); 13 further Unicode spaces (VT, FF, CR, CRLF, TAB, NEL, U+1680, U+2003, U+2029, U+202F, U+205F, U+3000, a mixed run) each in every gap alone and next to one other non-default gap; directive comments before the first token must be honoured, after it ignored (even malformed). Oracle: Dump+DumpTable of the re-laid-out source equal the original's. Formatter: IndentByParentheses applied 1..3 times to every layout sample and to every lexable character string up to the length bound over 17 characters: the independent tokenizer's token+comment sequence is unchanged and Compile gives the same program/error. non-trivial = layouts containing a comment or a non-ASCII space"
 	r.Assume = []string{"'between tokens' is taken conservatively: whitespace is only removed next to a paren, bracket or comma", "the independent tokenizer (mc/sx) implements the documented token rules"}
 	r.Cov["bounds"] = map[string]int{"max_nodes": maxNodes, "all_assignments_up_to_gaps": allGaps + 1, "deviation_bound": devs, "formatter_char_string_len": fmtLen}
 	trees := Programs(c14Alphabet(), []term.Ty{B}, maxNodes)
@@ -221,6 +238,41 @@ func c14(r *rep.Run) {
 				}
 			}
 			rec(0, devs)
+		}
+		// exotic Unicode spaces: one exotic gap, alone and next to one other non-default gap
+		{
+			ss := make([]string, g)
+			for _, ex := range c14Exotic {
+				for k := 0; k < g; k++ {
+					for o := -1; o < g; o++ {
+						if o == k {
+							continue
+						}
+						for oi := 0; oi < 3; oi++ {
+							for x := range ss {
+								ss[x] = " "
+							}
+							ss[k] = ex
+							if o >= 0 {
+								ss[o] = []string{"\n", ";c\n", " "}[oi]
+							} else if oi > 0 {
+								continue
+							}
+							src := layoutStr(it.toks, ss)
+							atomic.AddInt64(&layouts, 1)
+							atomic.AddInt64(&nontrivial, 1)
+							if got := c14Sig(w, it.infix, src); got != want {
+								r.Violate("layout-changes-program", it.src+ex, sprintf("a %q between tokens changes the compiled program", ex), map[string]interface{}{"original": it.src, "relayout": src, "infix": it.infix, "got": got, "want": want})
+							}
+						}
+					}
+				}
+				// and the formatter on a source that uses this space everywhere
+				for x := range ss {
+					ss[x] = ex
+				}
+				checkFormatter(w, it.infix, layoutStr(it.toks, ss), want)
+			}
 		}
 		// formatter on a few layouts of this source: default, all-newline, comments everywhere, minimal
 		for _, s := range []int{1, 2, 6, 0, 7, 4} {
